@@ -18,6 +18,7 @@ RULE = ("a fixed mixed-authority tree built through the node API (mutable SDMF/M
         "give; the private area answers 401 unless the token is right (any other token reaching the protected resource is a violation); before the first request the "
         "harness asserts that its on-disk ground truth sees every mutable object of the tree; non-trivial = at least one request "
         "without write authority judged; distinct = probe fingerprint")
+RULE += '; plus re-links that diminish an existing link (same object by its read-only cap), two-child set_children bodies; after every 2xx the stored link is compared with the cap the request gave for it'
 TECHNIQUE = "deterministic simulation: seeded web-API request sequences against the real resource tree on a simulated grid, disk-level before/after comparison against the write authority presented"
 LEVEL_TEXT = "seeded search over request kinds, cap flavours, path shapes and operation arguments; sampling, not enumeration"
 LEVEL_NOTE = "real: web.root.Root, web.directory, web.filenode, web.unlinked, web.operations, web.private, webish.TahoeLAFSSite/TahoeLAFSRequest, dirnode, mutable/immutable filenodes, storage servers; stub: TCP/HTTP parsing (requests are built as HTTPChannel would and handed to Request.requestReceived), foolscap wire, reactor"
